@@ -32,9 +32,11 @@ def same_class(v, target) -> bool:
     return v is not None and v.get("signature") == target.get("signature")
 
 
-def minimise(case: dict, target: dict, run, budget: int = 300, log=None) -> tuple[dict, dict, int]:
+def minimise(case: dict, target: dict, run, budget: int = 300, log=None, step_slots=None) -> tuple[dict, dict, int]:
     """run(case) -> violation dict | None. Returns (minimised case, its violation, executions used)."""
     used = 0
+    if step_slots is None:
+        step_slots = lambda s: s.get("args", [])  # noqa: E731
     best = copy.deepcopy(case)
     best_v = target
 
@@ -120,7 +122,7 @@ def minimise(case: dict, target: dict, run, budget: int = 300, log=None) -> tupl
         need = set()
         for s in best["steps"]:
             if s["i"] in live:
-                need.update(s["args"])
+                need.update(step_slots(s))
         recs = {r["slot"]: r for r in best["recipes"]}
         frontier = [s for s in need if s in recs]
         closure = set(frontier)
